@@ -337,9 +337,21 @@ func genC08(c *Ctx) {
 		c.Eval(req)
 		c.Count("whole-file")
 		var msg string
-		p := safe(func() { msg = compareLazyEager(d) })
+		p := safe(func() { msg = compareLazyEager(d, 0) })
 		if p != "" {
 			msg = p
+		}
+		if msg == "" && i%4 == 0 {
+			pre := 1 + c.R.Intn(40)
+			c.Count("whole-file-reader-not-at-zero")
+			if p := safe(func() { msg = compareLazyEager(d, pre) }); p != "" {
+				msg = p
+			}
+			if msg != "" {
+				msg = fmt.Sprintf("(readers positioned at offset %d of a larger stream) ", pre) + msg
+				c.Fail("C08-positions-reader-offset", "lazy and in-memory decode differ: "+msg, req+" "+clip(hx(d)), msg, "")
+				msg = ""
+			}
 		}
 		if msg != "" {
 			c.Fail("C08-tree-equal", "lazy and in-memory decode differ: "+msg, req+" "+clip(hx(d)), msg, "")
@@ -347,9 +359,17 @@ func genC08(c *Ctx) {
 	}
 }
 
-func compareLazyEager(d []byte) string {
-	fe, errE := mp4.DecodeFile(bytes.NewReader(d))
-	fl, errL := mp4.DecodeFile(bytes.NewReader(d), mp4.WithDecodeMode(mp4.DecModeLazyMdat))
+// compareLazyEager decodes d in both modes; with prefix > 0 the file sits behind `prefix` foreign bytes of a larger
+// stream and the readers are positioned at its first byte (tree, sizes and positions must still agree between the
+// modes; the absolute-offset read API is only exercised for prefix 0).
+func compareLazyEager(d []byte, prefix int) string {
+	rd := func() *bytes.Reader {
+		r := bytes.NewReader(append(make([]byte, prefix), d...))
+		_, _ = r.Seek(int64(prefix), 0)
+		return r
+	}
+	fe, errE := mp4.DecodeFile(rd())
+	fl, errL := mp4.DecodeFile(rd(), mp4.WithDecodeMode(mp4.DecModeLazyMdat))
 	if (errE == nil) != (errL == nil) {
 		return fmt.Sprintf("eager err=%v lazy err=%v", errE, errL)
 	}
@@ -383,6 +403,9 @@ func compareLazyEager(d []byte) string {
 			// the real position in the file (earlier boxes with a 16-byte header re-encode 8 bytes shorter, so the
 			// running sum of Size() is not a file position); it must hold an mdat header
 			pos = ma.StartPos
+			if prefix > 0 {
+				continue
+			}
 			// the original box = the next mdat of an independent top-level walk of the file bytes
 			if mdatIdx >= len(trueMdats) {
 				return "more mdat boxes decoded than the file holds"
